@@ -82,12 +82,16 @@ def judge(d):
         return da.from_array(t, chunks=tuple(tuple(c) for c in d["chunks"]))
 
     order = d["order"]
+    # image ids need not be 0..n-1 in registration order
+    ids = list(d.get("ids") or range(ntomo))[:ntomo]
+    if not d["batch"]:
+        ids = [0]
     if d["batch"]:
         loader = BatchLoader(order=order, scale=scale)
         split = [[i for i in range(nm) if i % ntomo == t] for t in range(ntomo)]
         for t in range(ntomo):
             if split[t]:
-                loader.add_tomogram(wrap(imgs[t], t), mole.subset(split[t]), image_id=t)
+                loader.add_tomogram(wrap(imgs[t], t), mole.subset(split[t]), image_id=ids[t])
         tomo_of = {i: i % ntomo for i in range(nm)}
     else:
         loader = SubtomogramLoader(wrap(imgs[0], 0), mole, order=order, scale=scale)
@@ -113,7 +117,11 @@ def judge(d):
         out.append(viol("C15/scale", f"{tag}: binned scale {binned.scale} != {b * scale}"))
     images = dict(binned.images) if d["batch"] else {0: binned.image}
     oimages = dict(other.images) if d["batch"] else {0: other.image}
-    for t, im in images.items():
+    for key, im in images.items():
+        if key not in ids:
+            out.append(viol("C15/image-ids", f"{tag}: binned loader holds an image under id {key!r}, registered ids are {ids}"))
+            continue
+        t = ids.index(key)
         arr = np.asarray(im.compute() if hasattr(im, "compute") else im)
         want = blocksum(imgs[t], b)
         if arr.shape != want.shape:
@@ -122,7 +130,7 @@ def judge(d):
         e = float(np.abs(arr - want).max())
         if not e <= 1e-5 * (float(np.abs(want).max()) + 1e-9):
             out.append(viol("C15/image-not-blocksum", f"{tag}: binned image differs from the block sum by {e:.3g}", err=e))
-        oi = oimages[t]
+        oi = oimages[key]
         oarr = np.asarray(oi.compute() if hasattr(oi, "compute") else oi)
         if oarr.shape != arr.shape or not np.allclose(oarr, arr, rtol=1e-6, atol=1e-6):
             out.append(viol("C15/lazy-vs-eager", f"{tag}: lazily and eagerly binned images differ"))
@@ -146,6 +154,24 @@ def judge(d):
     if b == 1:
         if not np.array_equal(bm.pos, loader.molecules.pos):
             out.append(viol("C15/binning-1", f"{tag}: binning(1) moved the molecules"))
+    # binning the binned loader again (also by the same factor as before): block sums of block sums, scale multiplied again
+    b2 = d.get("rebin")
+    f2 = (b if b2 == "same" else int(b2)) if b2 else 0
+    if b2 and b > 1 and all(s // b // f2 >= 1 for s in ish):
+        with warnings.catch_warnings():
+            warnings.simplefilter("ignore")
+            again = binned.binning(f2, compute=True)
+        if not abs(again.scale - f2 * b * scale) <= 1e-9 * f2 * b * scale:
+            out.append(viol("C15/rebin-scale", f"{tag}: binning({b}).binning({f2}) has scale {again.scale}, expected {f2 * b * scale}"))
+        images2 = dict(again.images) if d["batch"] else {0: again.image}
+        for key, im in images2.items():
+            if key not in ids:
+                continue
+            arr2 = np.asarray(im.compute() if hasattr(im, "compute") else im)
+            want2 = blocksum(blocksum(imgs[ids.index(key)], b), f2)
+            if arr2.shape != want2.shape or not float(np.abs(arr2 - want2).max()) <= 1e-5 * (float(np.abs(want2).max()) + 1e-9):
+                out.append(viol("C15/rebin-image", f"{tag}: binning({b}).binning({f2}) image (shape {arr2.shape}) is not the block sum of the binned image (shape {want2.shape})"))
+                break
     # exact class
     if d["cls"] == "grid" and b >= 1:
         big = tuple(b * s for s in n)
@@ -178,7 +204,8 @@ def cases(draw):
     cls = draw(st.sampled_from(["grid", "grid", "free"]))
     mols = [{"k": [draw(st.integers(0, 30)) for _ in range(3)], "f": [round(draw(st.floats(0, 1)), 3) for _ in range(3)],
              "rot": draw(gen.rotvecs())} for _ in range(draw(st.integers(1, 4)))]
-    return {"idtype": draw(st.sampled_from(["float32", "float32", "float32", "int8", "uint8", "int16"])),
+    return {"rebin": draw(st.sampled_from([None, None, "same", 2, 3])), "ids": draw(st.sampled_from([None, None, [7, 3, 5], [2, 0, 1], [10, 20, 30]])),
+            "idtype": draw(st.sampled_from(["float32", "float32", "float32", "int8", "uint8", "int16"])),
             "btype": draw(st.sampled_from(["int", "int", "np.int64", "np.uint8"])),
             "b": b, "box": box, "ishape": ish, "chunks": chunks, "compute": draw(st.booleans()), "batch": draw(st.booleans()),
             "scale": draw(gen.scales), "order": draw(st.sampled_from([0, 1, 3])), "cls": cls, "mols": mols, "seed": draw(gen.seeds),
